@@ -1,5 +1,5 @@
 (** C16 - embedded shader source is byte-identical to the input. *)
-From W2W Require Import Wf GenInv Escape Render.
+From W2W Require Import Wf GenInv Escape Render StrLit StrLitProof.
 
 (** the string literal printed for the source evaluates to exactly the source, for every string and every
     table of characters that escape_debug prints as \u{..} *)
@@ -57,3 +57,21 @@ Proof.
   - destruct a. unfold render, render_rest. rewrite <- app_assoc. reflexivity.
 Qed.
 Print Assumptions C16_text.
+
+(** ... and character by character: for every source made of Unicode scalar values and every table of characters that
+    escape_debug prints as \u{..}, rustc's unescaping (Spec/StrLit.v [unescape]: simple escapes, \xHH, \u{HEX}, no
+    unescaped quote, no bare CR) of the characters proc-macro2 prints between the quotes ([literal_body]: each escape
+    token rendered, \u{..} in lower-case hex without leading zeros) succeeds and yields exactly the source. *)
+Theorem C16_roundtrip_chars : forall needs_unicode s,
+  forallb valid_scalar s = true ->
+  unescape (S (length (literal_body needs_unicode s))) (literal_body needs_unicode s) = Some s.
+Proof. exact lex_roundtrip_fuel. Qed.
+Print Assumptions C16_roundtrip_chars.
+
+(** non-vacuity: quote, backslash, NUL followed by a digit, CR LF, a combining mark printed as \u{301}, a non-BMP character *)
+Example C16_chars_example :
+  let s := [34; 92; 0; 55; 13; 10; 769; 128512]%N in
+  literal_body (fun c => N.eqb c 769) s
+    = [92; 34; 92; 92; 92; 120; 48; 48; 55; 92; 114; 92; 110; 92; 117; 123; 51; 48; 49; 125; 128512]%N
+  /\ unescape 30 (literal_body (fun c => N.eqb c 769) s) = Some s.
+Proof. split; vm_compute; reflexivity. Qed.
